@@ -30,18 +30,18 @@ CHECKS = {
         "statements; proving the latter refuted the theorem on `f ( ) { } { } ;` and exposed the genuine defect GD27 (a block that abuts a "
         "function body was merged into it), after whose repair the hypothesis 'nothing opens right after the body' was deleted from every "
         "theorem.  Membership in the grammars is DECIDED: executable recognisers (Scope/GrammarParse.v, PyGrammarParse.v) are proved sound "
-        "(C01_recognised_programs, C01_recognised_python_programs) and run inside Coq on the generated programs; about half are members, "
+        "(C01_recognised_programs, C01_recognised_python_programs) and run inside Coq on the generated programs; about three quarters are members, "
         "for which no descriptor-side hypothesis is left.  The brace grammar meanwhile also covers TypeScript return types with parenthesis "
-        "groups, flat brace groups in JavaScript / TypeScript parameter lists and callback statements (each extension was corrected or "
+        "groups, flat brace groups in JavaScript / TypeScript parameter lists, callback statements and Java anonymous classes / C# object initialisers after `new` (each extension was corrected or "
         "confirmed by its proof attempt; counter-example streams in Scope/GrammarAllProofsCex.v).  NOT proved: what the grammars leave "
-        "out (anonymous classes / object initialisers after `new`, nested brace groups in parameter lists, Python backslash "
+        "out (nested brace groups in parameter lists, Python backslash "
         "continuations: hypothesis form and generator only) "
         "and the text->token step (lexers are oracles).  4 200 generated programs per quick run (nesting in any position, multi-line "
         "headers, both brace styles, brace groups and calls in parameters, async, long throws / return types, strings with "
         "delimiters, marker-like comments, bodies around 15/30/60) are judged against expectations computed from the rendering, "
         "and the Coq model runs on the same token streams.",
    note="Partial: formal grammars with unconditional theorems and sound recognisers exist for all seven languages, but they leave out "
-        "anonymous classes / object initialisers after `new`, nested brace groups inside parameter lists and Python backslash "
+        "nested brace groups inside parameter lists and Python backslash "
         "continuations (those are covered by the decidable-hypothesis theorems, validated per generated program); lexers are oracles.  Trusted: Coq kernel; scope model (tie H), captured "
         "patterns (tie K); generator harness/progen.py and its piece-ownership expectation.",
    technique="Rocq end-to-end theorem (header recognition via the concrete DFAs, Dyck matching, pairing invariant, fold, counting; Python suites) under decidable lexical hypotheses checked in Coq per generated program; formal grammars with unconditional theorems and sound recognisers run in Coq + typed program generator with computed expectations",
